@@ -211,7 +211,7 @@ PROPS = {
     'C02': dict(
         title='No accepted proof exists for an assignment that violates the circuit',
         design_ref='DESIGN.md section 4 / C02',
-        bounded=[('plonky2', ['c02_'])],
+        bounded=[('plonky2', ['c02_', 'c08_'])],
         vspecs=['contracts/C02/gate_constraints.vspec', 'contracts/C02/partition_witness.vspec', 'contracts/C07/gate_constraints_circuit.vspec', 'contracts/C07/filtered_circuit.vspec', 'contracts/C02/forest.vspec', 'contracts/C02/partial_products.vspec', 'contracts/C15/poly_len.vspec', 'contracts/C03/plonk_verifier.vspec', 'contracts/C08/lookup_selectors.vspec'],
         level_text='Unbounded deductive proof (Verus/Z3) of three of the mechanisms the property names: (i) evaluate_gate_constraints returns, in every '
                    'slot j, the sum over EVERY gate type of the circuit of that gate\'s j-th filtered constraint, each taken with its own selector column '
